@@ -35,6 +35,13 @@ pub fn step(ctx: &Ctx, w: &World, ev: &mut Ev) {
             }
         }
     }
+    // an engine call that names something that is not a registered vAMM must not succeed
+    if let Op::RawEngine { .. } = &ctx.step.op {
+        ev.eval(true, &("raw_unregistered", ctx.out.ok), || json!({"raw_engine_call_with_unregistered_vamm": serde_json::to_value(&ctx.step.op).unwrap_or_default(), "accepted": ctx.out.ok}));
+        if ctx.out.ok {
+            ev.violation("unregistered_succeeded", "RawEngine,main", json!({"op": serde_json::to_value(&ctx.step.op).unwrap_or_default()}));
+        }
+    }
     // main-history gate checks
     if ctx.out.ok {
         if ctx.model.paused && matches!(ctx.step.op, Op::Open { .. } | Op::Close { .. } | Op::Deposit { .. } | Op::Withdraw { .. }) {
